@@ -241,6 +241,17 @@ def bytes_ops2(b):
     return (b"ZF" in b, b.decode("latin1"), bytes(3), bytearray(b)[1:])
 
 
+def type_tests(x):
+    return (type(x) is int, type(x) is bool, type(x) in (bytes, bytearray), type(x) == str, type(x) in (int, float), type(x) is type(None), isinstance(x, (int, str)))
+
+
+def range_step(n, step):
+    try:
+        return list(range(0, n, step))
+    except ValueError:
+        return "ValueError"
+
+
 def conversions(x):
     return (int(x), str(x), bool(x), isinstance(x, int), isinstance(x, (str, bytes)))
 
@@ -471,4 +482,6 @@ CASES = {
     "global_counter": [(0,), (4,), (7,)],
     "set_ops": [([1, 2, 3], [2, 3, 4]), ([], [1])],
     "str_int_mix": [("a",), (1,)],
+    "range_step": [(5, 1), (5, 2), (5, 0), (0, 0), (5, -1)],
+    "type_tests": [(1,), (True,), (1.5,), ("s",), (b"b",), (None,)],
 }
